@@ -1,6 +1,7 @@
 (* C09/Props.v — property theorems only.  Each is closed by [exact] of a lemma proved in
    Proofs*.v and followed by Print Assumptions; non-vacuity examples at the end. *)
 From Verif Require Import Shard.Store C09.Model C09.Run C09.ProofsA C09.ProofsB C09.ProofsC C09.ProofsD C09.Proofs.
+From Verif Require Import C09.Blocks C09.BlocksProofs C09.BlocksRefine C09.BlocksClass C09.Planner C09.PlannerProofs.
 From VerifGen Require Import Consts.
 Open Scope Z_scope.
 
@@ -122,6 +123,132 @@ Proof.
 Qed.
 Print Assumptions model_satisfies_spec.
 
+(* ================= block level: tsmBatchKeyIterator.merge / combine<T> / chunk<T> ================= *)
+
+(* On sorted arrays the real two-way <T>Array.Merge is the logical last-write-wins overlay. *)
+Theorem array_merge_is_lww :
+  forall a b : list tv, ssorted a -> ssorted b -> merge2 a b = merge_lw a b.
+Proof. exact merge2_eq_merge_lw. Qed.
+Print Assumptions array_merge_is_lww.
+
+(* sortBlocks (insertion sort with the partial order blocks.Less) never changes what a
+   newest-wins reader of the block sequence sees: for EVERY block list (any length, > 20
+   included) and every per-block value function whose timestamps lie within the block's index
+   entry, the last occurrence of each timestamp is the same before and after sorting: blocks
+   that overlap keep their file order.  (The property sort.Stable lost, fix f6dc664.) *)
+Theorem sortBlocks_keeps_newest_wins :
+  forall (pv : blk -> list tv),
+    (forall b y, In y (pv b) -> b_min b <= fst y <= b_max b) ->
+    forall t l, lookup_last t (flat_map pv (sort_blocks l)) = lookup_last t (flat_map pv l).
+Proof. exact sort_blocks_lookup. Qed.
+Print Assumptions sortBlocks_keeps_newest_wins.
+
+(* (c), the CONDITION of the fast path: whenever merge<T>() decides dedup = false on a block
+   list as sortBlocks leaves it, no decoded values are pending, the blocks are pairwise
+   disjoint and strictly ordered in time, none has a tombstone and none is partially read —
+   for every block list and every state of the read marks. *)
+Theorem fast_path_condition_is_sound :
+  forall (bs : list blk) (mv : list tv),
+    Forall range_ok bs -> adj bs -> need_dedup bs mv = false ->
+    mv = [] /\ chainP strictly_before bs /\
+    Forall (fun b => b_tombs b = [] /\ (untouched b \/ read_exactly b)) bs.
+Proof. exact fast_path_condition_sound. Qed.
+Print Assumptions fast_path_condition_is_sound.
+
+Theorem sortBlocks_establishes_adjacency :
+  forall l, Forall range_ok l -> adj (sort_blocks l).
+Proof. exact sort_blocks_adj. Qed.
+Print Assumptions sortBlocks_establishes_adjacency.
+
+(* (a)+(b)+(c) for EVERY well-formed input (any number of files, blocks sorted and
+   non-overlapping within a file, arbitrary across files, any tombstone ranges), every
+   size >= 1, both modes, along the whole run of the iterator for the key (every merge<T>()
+   call, every window with its partial read marks, the fast path, every chunk) — under the
+   WINDOW CONDITION [key_crux]: no window starts above a value that is still unread.
+   PARTIAL: the window condition is a hypothesis on the run; it is discharged below for the
+   min-ordered layouts; for the remaining layouts (a newer file's block starting before an
+   overlapping older block it is sorted behind) the chain argument over the insertion-sorted
+   list is missing, and the full statement [block_merge_refines_logical] =
+   this theorem without the [key_crux] premise is NOT proved. *)
+Theorem block_merge_refines_logical_partial :
+  forall (fast : bool) (size : nat) (inp : key_input) (os : list oblk),
+    (1 <= size)%nat -> input_wfb inp = true -> times_i64 inp ->
+    merge_key fast size inp = Some os ->
+    key_crux (fuel_for (input_blocks inp)) (fuel_for (input_blocks inp)) fast size (input_blocks inp) [] ->
+    vals_of os = logical inp /\
+    Forall (ob_shape size) os /\ chainP (fun a b => o_max a < o_min b) os /\
+    Forall (ob_ok (input_blocks inp) size) os /\
+    (forall o, In o os -> filter (in_range (o_min o) (o_max o)) (logical inp) = o_vals o).
+Proof. exact block_merge_refines_logical_under_crux. Qed.
+Print Assumptions block_merge_refines_logical_partial.
+
+(* ... unconditionally for every input whose blocks, as sortBlocks orders them, are also
+   ordered by minTime (blocks may still overlap, nest, repeat timestamps across files, and
+   carry tombstones; the decode path with partial read marks is fully exercised):
+   (a) the concatenation of the output blocks = the logical newest-wins merge minus tombstones;
+   (b) output blocks non-empty, index entries exact, <= size points unless passed through,
+       time-sorted and pairwise non-overlapping;
+   (c) a passed-through block is an unchanged input block of a file without tombstones for the
+       key, and every output block is exactly the logical content of its time range. *)
+Theorem block_merge_refines_logical_min_ordered_inputs :
+  forall (fast : bool) (size : nat) (inp : key_input) (os : list oblk),
+    (1 <= size)%nat -> input_wfb inp = true -> times_i64 inp -> min_ordered inp = true ->
+    merge_key fast size inp = Some os ->
+    vals_of os = logical inp /\
+    Forall (ob_shape size) os /\ chainP (fun a b => o_max a < o_min b) os /\
+    Forall (ob_ok (input_blocks inp) size) os /\
+    (forall o, In o os -> filter (in_range (o_min o) (o_max o)) (logical inp) = o_vals o).
+Proof. exact block_merge_refines_logical_min_ordered. Qed.
+Print Assumptions block_merge_refines_logical_min_ordered_inputs.
+
+(* the link to layer A: [logical] of the per-file (blocks, tombstone ranges) description IS
+   Model.merged_values of the group, so compact_preserves_reads extends to the block level *)
+Theorem logical_is_merged_values :
+  forall (group : list tsmfile) (k : key) (inp : key_input),
+    Forall2 (fun f i => apply_tr (snd i) (concat (fst i)) = file_values f k) group inp ->
+    logical inp = merged_values group k.
+Proof. exact logical_eq_merged_values. Qed.
+Print Assumptions logical_is_merged_values.
+
+(* ================= planner: DefaultPlanner.PlanLevel ================= *)
+
+(* Every group PlanLevel returns — for every file set, every set of files held by running
+   compactions, every tombstone flag, level and force flag — satisfies the hypotheses of
+   compact_preserves_reads_contiguous: it is listed in file order, consists of existing files
+   none of which is in use, holds whole generations and is contiguous (an in-use generation
+   ends a group, fix 59a68bc); groups of one plan are disjoint. *)
+Theorem planned_groups_satisfy_hypothesis :
+  forall (fs : list tsmfile) (stats : list pstat) (force : bool) (level : N),
+    names_nodup fs -> nsorted fs ->
+    map pname stats = map fname fs ->
+    (forall g, In g (plan_level force stats level) ->
+       let grp := pick_group fs g in
+       map fname grp = g /\ (forall x, In x grp -> In x fs) /\ nsorted grp /\
+       whole_last_generation fs grp = true /\ contiguous fs grp /\
+       (forall p, In p stats -> In (pname p) g -> p_inuse p = false)) /\
+    NoDup (concat (plan_level force stats level)).
+Proof. exact planned_groups_satisfy_hypothesis_thm. Qed.
+Print Assumptions planned_groups_satisfy_hypothesis.
+
+(* ... hence compacting any planned group changes no read *)
+Theorem planned_groups_preserve_reads :
+  forall (maxe : N) (size : Z) (fs : list tsmfile) (stats : list pstat) (force : bool) (level : N),
+    names_nodup fs -> nsorted fs -> map pname stats = map fname fs ->
+    forall g, In g (plan_level force stats level) ->
+    forall c k lo hi asc,
+      store_read (replace_files fs (pick_group fs g) (compact_with maxe size (pick_group fs g))) c k lo hi asc =
+      store_read fs c k lo hi asc.
+Proof. exact planned_groups_preserve_reads_thm. Qed.
+Print Assumptions planned_groups_preserve_reads.
+
+(* the planner model satisfies the executable monitor used on the real planner, for all inputs *)
+Theorem plan_level_satisfies_spec_plan :
+  forall (fs : list tsmfile) (stats : list pstat) (force : bool) (level : N),
+    names_nodup fs -> nsorted fs -> map pname stats = map fname fs ->
+    spec_plan fs (plan_level force stats level) = true.
+Proof. exact plan_level_satisfies_spec_plan_thm. Qed.
+Print Assumptions plan_level_satisfies_spec_plan.
+
 (* ---------- non-vacuity ---------- *)
 
 (* the hypotheses of compact_preserves_reads_contiguous hold for the first two generations
@@ -154,3 +281,35 @@ Example snapshot_nonvacuous :
   shard_read (clear_snapshot (install_snapshot 2 s)) wkey min_int64 max_int64 true
     = [(1, VInt 12); (9, VInt 14)].
 Proof. vm_compute. reflexivity. Qed.
+
+(* block level: two files whose blocks overlap and repeat a timestamp, a tombstone on the older
+   file, blocks of exactly size points: the hypotheses of the min-ordered theorem hold and the
+   run goes through the decode path with partial reads, then passes the last block through *)
+Definition ex_inp : key_input :=
+  [ ([[(10, VInt 1); (20, VInt 1)]; [(30, VInt 1); (40, VInt 1)]], [(15, 25)]);
+    ([[(32, VInt 2); (40, VInt 2)]; [(50, VInt 2); (60, VInt 2)]], []) ].
+
+Example block_theorem_nonvacuous :
+  input_wfb ex_inp = true /\ times_i64 ex_inp /\ min_ordered ex_inp = true /\
+  exists os, merge_key false 2 ex_inp = Some os /\ length os = 3%nat /\
+             vals_of os = logical ex_inp /\
+             logical ex_inp = [(10, VInt 1); (30, VInt 1); (32, VInt 2); (40, VInt 2); (50, VInt 2); (60, VInt 2)].
+Proof.
+  split; [vm_compute; reflexivity|]. split; [apply times_i64b_spec; vm_compute; reflexivity|].
+  split; [vm_compute; reflexivity|].
+  eexists. split; [vm_compute; reflexivity|]. split; [reflexivity|]. split; vm_compute; reflexivity.
+Qed.
+
+(* a layout outside the min-ordered class (the newer file starts first and is sorted behind):
+   the model still produces the logical merge; this is the part covered by correspondence *)
+Example block_outside_class :
+  let inp := [ ([[(10, VInt 1); (20, VInt 1)]], []); ([[(5, VInt 2); (15, VInt 2)]], []) ] in
+  min_ordered inp = false /\
+  option_map vals_of (merge_key false 2 inp) = Some (logical inp).
+Proof. split; vm_compute; reflexivity. Qed.
+
+(* the fast-path condition holds for disjoint full blocks and fails as soon as one overlaps *)
+Example fast_path_nonvacuous :
+  need_dedup (sort_blocks (input_blocks [([[(1, VInt 1); (2, VInt 1)]; [(5, VInt 1); (6, VInt 1)]], []); ([[(8, VInt 2)]], [])])) [] = false /\
+  need_dedup (sort_blocks (input_blocks [([[(1, VInt 1); (2, VInt 1)]; [(5, VInt 1); (6, VInt 1)]], []); ([[(6, VInt 2)]], [])])) [] = true.
+Proof. split; vm_compute; reflexivity. Qed.
